@@ -1760,7 +1760,7 @@ func display(tokens []Token, _ string) pr.CssProperty {
 		if !ok {
 			return nil
 		}
-		value := string(ident.Value)
+		value := utils.AsciiLower(string(ident.Value))
 		switch value {
 		case "block", "inline":
 			if outside != "" {
